@@ -56,7 +56,7 @@ REQUIRED = [
     'tieBreaking_ideal_tiesLast', 'tieBreaking_tie_first_witness',
     'byConstituency_total', 'byConstituency_pointwise', 'district_evaluated', 'district_without_seats',
     'partyList_seats_exactly', 'closedList_ok', 'partyList_open_seats_exactly', 'openList_ok',
-    'listEvalExact_takeFromTop', 'listEvalExactOn_of_exact', 'openList_ok_on', 'thresholdOpenList_exactOn',
+    'listEvalExact_takeFromTop', 'listEvalExactOn_of_exact', 'openList_ok_on', 'thresholdOpenList_exactOn', 'thresholdOpenList_exactOn_any',
     'partyList_open_seats_exactly_on', 'toCandList_eq',
     'D.get?_set', 'setNested_look', 'enterAllocation_look', 'look_fillEmpty', 'has_fillEmpty', 'byParty_fold_look',
     'byParty_pointwise',
@@ -2270,9 +2270,6 @@ def _shrink_candidates(case):
 
 
 UNPROVED = [
-    'thresholdOpenList_exactOn covers n <= |list| only (the premise of VL.C16.openlist_length_distinct, which it uses); '
-    'for a party that won more seats than its list has members the exact count min(n, |list|) of ThresholdOpenList is '
-    'not proved (closed lists: partyList_seats_exactly covers it)',
     'tieBreaking on a tiebreaker that names the tie it was asked to break BEFORE other candidates: code and fill-in-order '
     'reading differ in the order of the tied places (tieBreaking_tie_first_witness); no selector built on get_n_best answers so',
 ]
